@@ -5,6 +5,13 @@ from tools import cluster
 
 def run(ctx):
     v = vlib.Verdict(ctx)
+    # the design: Maint.tla (two processes, record, operator, outages, restarts); what must hold holds, and the one
+    # path on which C09_Frozen fails in the model is finding S9 (a model counterexample alone is never a verdict)
+    mc = vlib.tlc_must(ctx, vlib.tlc(ctx, "Maint", cfg="MC_Maint.cfg" if ctx.quick else "MC_Maint_thorough.cfg", workers=8, timeout=3000), "Maint")
+    if mc.violations:
+        raise vlib.Inconclusive("Maint.tla violates its own invariants (model counterexample): %s" % mc.violations[:1])
+    s9 = vlib.tlc(ctx, "Maint", cfg="MC_Maint_S9.cfg", workers=4, timeout=900)
+    ctx.log("Maint.tla: %d states; S9 path exhibited by the model: %s" % (mc.distinct, bool(s9.violations)))
     rows, fails, r = vlib.rows_check(ctx, "internal/app", "^TestVerifC09$", "MaintRows", env={}, timeout=7000,
                                      shards=14, chunk=4000, par=4)
     meta = cluster.load_meta(ctx)
@@ -20,7 +27,8 @@ def run(ctx):
                {"row": row, "scenario": meta["scenarios"].get(row["scn"]),
                 "how": "VERIF_ONLY=<scenario id> go test -run TestVerifC09 (overlay)"})
     cov = {
-        "states": r.distinct, "transitions": r.generated,
+        "states": mc.distinct + r.distinct, "transitions": mc.generated + r.generated,
+        "maintenance_model_states": mc.distinct, "model_exhibits_S9": bool(s9.violations),
         "traces_validated_against_impl": meta["runs"], "evaluations": meta["runs"],
         "distinct_nontrivial": len({x["scn"] for x in rows if x["kind"] in ("frozen", "light")}),
         "rule": "full maintenance: operator action while paused {none, move the master, create two masters, leave no master, stop "
